@@ -21,6 +21,7 @@ Variables I T P : Type.
 Variable ieqb : I -> I -> bool.
 Variable teqb : T -> T -> bool.
 Variable lower : T -> T.
+Variable peqb : P -> P -> bool.          (* "is the same column object" (harness tags); used by the in-place mutations only *)
 
 (* FlatColumn: only the fields the property is about.  aliases may be None. *)
 Record col := mkcol { ctag : P; cid : I; cname : T; caliases : option (list T) }.
@@ -110,7 +111,9 @@ Inductive out :=
 | XBad                                   (* history refers to a schema / iterator that does not exist *)
 | XOpened                                (* iter(schema) returned an iterator (nothing consumed yet) *)
 | XItem (n : T)                          (* next(it) returned n *)
-| XStop.                                 (* next(it) raised StopIteration *)
+| XStop                                  (* next(it) raised StopIteration *)
+| XCols (l : list (option P))            (* a whole lookup table: which column object each key found *)
+| XDone.                                 (* an in-place mutation by the caller went through *)
 
 Definition store := list schema.
 
@@ -165,9 +168,40 @@ Fixpoint run (st : store) (ops : list op) : store * list (out * list (list P)) :
 Inductive hop :=
 | HOp (o : op)                           (* one of the calls above *)
 | HOpen (i : nat)                        (* iters.append(iter(store[i])) *)
-| HNext (k : nat).                       (* next(iters[k]) *)
+| HNext (k : nat)                        (* next(iters[k]) *)
+(* round 3: sessions on the SAME objects.  A whole lookup table in one call, and the in-place
+   mutations a caller can make between two uses of a schema: of a column object (seen by every schema
+   that lists that object) and of a schema's column list. *)
+| HTable (i : nat) (ci : bool) (keys : list T)   (* [store[i].find_column(k, ci) for k in keys] *)
+| HRename (i q : nat) (n : T)                    (* store[i].columns[q].name = n *)
+| HSetAliases (i q : nat) (al : option (list T)) (* store[i].columns[q].aliases = al *)
+| HInsertFrom (i p j q : nat)                    (* store[i].columns.insert(p, store[j].columns[q]) *)
+| HDelAt (i p : nat).                            (* del store[i].columns[p] *)
 
 Definition iters := list (list T).       (* per open iterator: the names still to be yielded *)
+
+(* a column OBJECT is known by its tag: mutating it changes every occurrence, in every schema *)
+Definition set_name (n : T) (c : col) : col := mkcol (ctag c) (cid c) n (caliases c).
+Definition set_aliases (al : option (list T)) (c : col) : col := mkcol (ctag c) (cid c) (cname c) al.
+Definition upd_col (tag : P) (f : col -> col) (s : schema) : schema :=
+  mksch (sname s) (saliases s) (map (fun c => if peqb (ctag c) tag then f c else c) (scols s)).
+(* list.insert(p, c) for p >= 0 (p beyond the end appends); del l[p] *)
+Definition insert_at (p : nat) (c : col) (s : schema) : schema :=
+  mksch (sname s) (saliases s) (firstn p (scols s) ++ c :: skipn p (scols s)).
+Definition del_at (p : nat) (s : schema) : schema :=
+  mksch (sname s) (saliases s) (firstn p (scols s) ++ skipn (S p) (scols s)).
+Definition lookup_table (ci : bool) (keys : list T) (s : schema) : list (option P) :=
+  map (fun k => option_map ctag (find_column ci k s)) keys.
+(* store[i].columns[q] for q >= 0: XBad when the history names no such schema, IndexError past the end *)
+Definition with_col (st : store) (its : iters) (i q : nat) (f : col -> (store * iters) * out)
+  : (store * iters) * out :=
+  match nth_error st i with
+  | None => ((st, its), XBad)
+  | Some s => match nth_error (scols s) q with
+              | None => ((st, its), XRaise)
+              | Some c => f c
+              end
+  end.
 
 Fixpoint set_it (its : iters) (k : nat) (l : list T) : iters :=
   match its, k with
@@ -190,6 +224,24 @@ Definition hstep (sti : store * iters) (h : hop) : (store * iters) * out :=
       | Some (n :: r) => ((st, set_it its k r), XItem n)
       | Some [] => ((st, its), XStop)          (* exhausted: StopIteration, now and ever after *)
       | None => ((st, its), XBad)
+      end
+  | HTable i ci keys =>
+      match nth_error st i with
+      | Some s => ((st, its), XCols (lookup_table ci keys s))
+      | None => ((st, its), XBad)
+      end
+  | HRename i q n => with_col st its i q (fun c => ((map (upd_col (ctag c) (set_name n)) st, its), XDone))
+  | HSetAliases i q al => with_col st its i q (fun c => ((map (upd_col (ctag c) (set_aliases al)) st, its), XDone))
+  | HInsertFrom i p j q =>
+      match nth_error st i with
+      | None => ((st, its), XBad)
+      | Some s => with_col st its j q (fun c => ((set_nth st i (insert_at p c s), its), XDone))
+      end
+  | HDelAt i p =>
+      match nth_error st i with
+      | None => ((st, its), XBad)
+      | Some s => if Nat.ltb p (length (scols s)) then ((set_nth st i (del_at p s), its), XDone)
+                  else ((st, its), XRaise)
       end
   end.
 
@@ -219,8 +271,11 @@ Arguments first_named {I T P}. Arguments pop_column {I T P}.
 Arguments OAdd {T}. Arguments OFind {T}. Arguments OColAt {T}. Arguments OColName {T}.
 Arguments OPop {T}. Arguments OAllNames {T}. Arguments ONames {T}. Arguments OIter {T}.
 Arguments XNew {T P}. Arguments XCol {T P}. Arguments XNames {T P}. Arguments XRaise {T P}. Arguments XBad {T P}.
-Arguments XOpened {T P}. Arguments XItem {T P}. Arguments XStop {T P}.
-Arguments HOp {T}. Arguments HOpen {T}. Arguments HNext {T}.
+Arguments XOpened {T P}. Arguments XItem {T P}. Arguments XStop {T P}. Arguments XCols {T P}. Arguments XDone {T P}.
+Arguments HOp {T}. Arguments HOpen {T}. Arguments HNext {T}. Arguments HTable {T}. Arguments HRename {T}.
+Arguments HSetAliases {T}. Arguments HInsertFrom {T}. Arguments HDelAt {T}.
+Arguments set_name {I T P}. Arguments set_aliases {I T P}. Arguments upd_col {I T P}. Arguments insert_at {I T P}.
+Arguments del_at {I T P}. Arguments lookup_table {I T P}. Arguments with_col {I T P}.
 Arguments set_it {T}. Arguments hstep {I T P}. Arguments hrun {I T P}. Arguments drop_loop {I T P}.
 Arguments set_nth {I T P}. Arguments step {I T P}. Arguments run {I T P}. Arguments tags_of {I T P}.
 Arguments with_schema {I T P}.
@@ -277,11 +332,26 @@ Definition out_eqb (a b : cout) : bool :=
   | XOpened, XOpened => true
   | XItem n1, XItem n2 => text_eqb n1 n2
   | XStop, XStop => true
+  | XCols l1, XCols l2 => list_eqb (opt_eqb N.eqb) l1 l2
+  | XDone, XDone => true
   | _, _ => false                      (* XBad never equals an observation *)
   end.
 
 Definition stepobs_eqb (a b : cout * list (list N)) : bool :=
   out_eqb (fst a) (fst b) && list_eqb (list_eqb N.eqb) (snd a) (snd b).
+
+(* per-call comparison.  The harness observes the column tags of ALL schemas after EVERY call; to keep the
+   case terms small it writes None when they are exactly what it observed after the previous call (before
+   the first call: the initial schemas of the case), so [e] below is always the observed list. *)
+Fixpoint steps_eqb (prev : list (list N)) (xs : list (cout * list (list N)))
+                   (obs : list (cout * option (list (list N)))) : bool :=
+  match xs, obs with
+  | [], [] => true
+  | x :: xr, (y, ot) :: orr =>
+      let e := match ot with Some u => u | None => prev end in
+      stepobs_eqb x (y, e) && steps_eqb e xr orr
+  | _, _ => false
+  end.
 
 (* a schema as the harness prints it: name, aliases, indices into the column pool *)
 Definition build_schema (pool : list ccol) (d : text * list text * list nat) : cschema :=
@@ -303,17 +373,17 @@ Definition final_eqb (st : list cschema) (fin : list (text * list text * list N)
             per-call observations, final snapshot of every schema) *)
 Definition c17_case : Type :=
   list (text * text) * list ccol * list (text * list text * list nat) * list (hop text)
-  * list (cout * list (list N)) * list (text * list text * list N).
+  * list (cout * option (list (list N))) * list (text * list text * list N).
 
 Definition c17_run (c : c17_case) :=
   let '(tbl, pool, schemas, ops, obs, fin) := c in
-  let '(sti, xs) := hrun text_eqb text_eqb (lower_of tbl) (map (build_schema pool) schemas, []) ops in
+  let '(sti, xs) := hrun text_eqb text_eqb (lower_of tbl) N.eqb (map (build_schema pool) schemas, []) ops in
   (fst sti, xs).
 
 Definition c17_check (c : c17_case) : bool :=
   let '(tbl, pool, schemas, ops, obs, fin) := c in
   let '(st, xs) := c17_run c in
-  list_eqb stepobs_eqb xs obs && final_eqb st fin.
+  steps_eqb (tags_of (map (build_schema pool) schemas)) xs obs && final_eqb st fin.
 
 Definition c17_show (c : c17_case) :=
   let '(st, xs) := c17_run c in
